@@ -78,6 +78,7 @@ class MasterTruth:
         self.apps = {}
         self.groups = {}
         self.allocations = []     # the list the master loaded last
+        self.alloc_by_path = {}   # path -> the record it was last loaded with
         self.app_alloc = {}       # app -> (partition, path tuple, alloc dict)
         self.down = {}            # server -> [smin, smax] (observation based)
         self.last_not_down = {}   # server -> time last observed not down
@@ -159,8 +160,12 @@ class MasterTruth:
 
     def trait_names_of(self, aname):
         names = set(self.apps.get(aname, {}).get('traits', []) or [])
-        alloc = self.app_alloc.get(aname, (None, None, None))[2]
-        if alloc:
+        entry = self.app_alloc.get(aname)
+        if entry and entry[2] is not None:
+            # the allocation OBJECT the instance sits in is updated in place
+            # by every later load of the allocations (also for an instance
+            # that is itself not loaded again): its current record counts
+            alloc = self.alloc_by_path.get(entry[1], entry[2])
             names |= set(alloc.get('traits', []) or [])
         return names
 
@@ -465,6 +470,13 @@ class World:
         else:
             truth.srv.pop(name, None)
 
+    def _truth_alloc_paths(self):
+        import re as _re
+        for alloc in self.truth.allocations:
+            path = (alloc.get('partition'),) + tuple(
+                _re.split('[/:]', alloc['name']))
+            self.truth.alloc_by_path[path] = alloc
+
     def truth_load_all(self):
         """What a starting master reads, read by the harness itself."""
         truth = self.truth
@@ -473,6 +485,8 @@ class World:
         for name in zk.children(z.SERVERS) or []:
             self._truth_server(name, adjust=False)
         truth.allocations = list(self._zk_obj(z.ALLOCATIONS) or [])
+        truth.alloc_by_path = {}
+        self._truth_alloc_paths()
         truth.apps = {}
         truth.app_alloc = {}
         for name in zk.children(z.SCHEDULED) or []:
@@ -534,6 +548,7 @@ class World:
                 if resource == 'allocations':
                     data = self._zk_obj(z.ALLOCATIONS)
                     truth.allocations = list(data) if data else []
+                    self._truth_alloc_paths()
                     # load_apps(): every instance still in /scheduled is
                     # loaded again (and so re-assigned); one that is gone
                     # from there keeps its allocation until the scheduled
